@@ -60,6 +60,7 @@ typedef struct {
   int bound;          /* tcp/pipe/udp: socket exists */
   int conn_pending;   /* pipe: a connect request is outstanding */
   int pid, reaped;    /* process */
+  int oneshot;        /* signal: started with uv_signal_start_oneshot */
   int dupfd;          /* tcp/udp/pipe: a dup of the socket kept open by the application (the open file outlives uv_close) */
   char path[400];     /* pipe */
 } hent;
@@ -82,6 +83,9 @@ static long fullat[128]; static int nfull;   /* poll calls whose non-empty batch
 static long npolls, polllimit = 400;
 static int fs_traffic, touch_no;
 static long sigpipe_sz; static int sig_traffic;
+static long soerror_budget;   /* that many getsockopt(SO_ERROR) queries answer EINPROGRESS (spurious connect wake-ups) */
+static int lsn_fd; static struct sockaddr_in lsn_addr, dead_addr;   /* a listener that never accepts; a port nobody listens on */
+static int oneshot_raise_used;
 static int fail_socket_errno;   /* next socket() fails with this errno */
 
 /* ------------------------------------------------------------------ thread pool gate */
@@ -252,6 +256,14 @@ static int epoll_has_ino(unsigned long ino) {
 }
 static unsigned long ino_of(int fd) { struct stat st; if (fd < 0 || fstat(fd, &st)) return 0; return (unsigned long) st.st_ino; }
 
+/* ------------------------------------------------------------------ getsockopt(SO_ERROR) answers for connecting sockets */
+int getsockopt(int fd, int level, int name, void* val, socklen_t* len) {
+  if (level == SOL_SOCKET && name == SO_ERROR && soerror_budget > 0 && val && len && *len >= sizeof(int)) {
+    soerror_budget--; *(int*) val = EINPROGRESS; *len = sizeof(int); printf("env soerror -> EINPROGRESS\n"); return 0;
+  }
+  return (int) syscall(SYS_getsockopt, fd, level, name, val, len);
+}
+
 /* ------------------------------------------------------------------ send wrappers (forced EAGAIN) */
 static long eagain_budget;
 static int is_udp_fd(int fd) {
@@ -355,6 +367,10 @@ static void close_cb(uv_handle_t* h) {
   free(h);
   printf("endcb\n"); obs();
   if (reg != -2) printf("res h%d epoll=%d\n", i, reg);
+  if (H[i].kind == K_SIGNAL) {   /* process-wide residue: is libuv's handler still installed for the signal? */
+    struct sigaction sa; memset(&sa, 0, sizeof sa); sigaction(SIGUSR2, NULL, &sa);
+    printf("res h%d sigaction=%s\n", i, sa.sa_handler == SIG_DFL ? "dfl" : "set");
+  }
   if (H[i].kind == K_FSEVENT && fs_traffic) printf("res h%d iw=%d\n", i, inotify_watches());
   if (H[i].kind == K_PIPE) {   /* what is left of bound socket files in the scratch directory */
     char p[200]; snprintf(p, sizeof p, "%s/sock", scratch); int n = 0; DIR* d = opendir(p); struct dirent* e;
@@ -440,7 +456,9 @@ static void exec_op(char* text0) {
     case K_IDLE: RET(uv_idle_start((uv_idle_t*) e->ptr, idle_cb));
     case K_PREPARE: RET(uv_prepare_start((uv_prepare_t*) e->ptr, prepare_cb));
     case K_CHECK: RET(uv_check_start((uv_check_t*) e->ptr, check_cb));
-    case K_SIGNAL: RET(uv_signal_start((uv_signal_t*) e->ptr, signal_cb, SIGUSR2));
+    case K_SIGNAL:   /* a = 1: one-shot watcher */
+      if (atoi(w[2]) == 1) { r = uv_signal_start_oneshot((uv_signal_t*) e->ptr, signal_cb, SIGUSR2); if (r == 0) e->oneshot = 1; RET(r); }
+      r = uv_signal_start((uv_signal_t*) e->ptr, signal_cb, SIGUSR2); if (r == 0) e->oneshot = 0; RET(r);
     case K_FSEVENT: { char p[200]; snprintf(p, sizeof p, "%s/watch", scratch); RET(uv_fs_event_start((uv_fs_event_t*) e->ptr, fsevent_cb, p, 0)); }
     case K_UDP: r = uv_udp_recv_start((uv_udp_t*) e->ptr, alloc_cb, recv_cb); if (r == 0) e->bound = 1; keep_dup(i); RET(r);
     case K_TCP:
@@ -653,12 +671,27 @@ static void exec_op(char* text0) {
   }
   if (!strcmp(o, "raise") && nw == 2) {
     /* environment: SIGUSR2 arrives N times (the handler runs synchronously here and writes to the loop's signal pipe) */
-    int ok = 0;
-    for (int j = 0; j < nh; j++) if (H[j].state == H_LIVE && H[j].kind == K_SIGNAL && uv_is_active(H[j].ptr)) ok = 1;
+    int ok = 0, persistent = 0;
+    for (int j = 0; j < nh; j++) if (H[j].state == H_LIVE && H[j].kind == K_SIGNAL && uv_is_active(H[j].ptr)) { ok = 1; if (!H[j].oneshot) persistent = 1; }
     if (!ok) BAD;   /* no handler installed: the default action would kill the process */
     long n = atol(w[1]); if (n < 0 || n > 100000) BAD;
+    if (!persistent) {   /* only one-shot watchers: SA_RESETHAND restores the default action at the first delivery */
+      if (oneshot_raise_used || n < 1) BAD;
+      oneshot_raise_used = 1; n = 1;
+    }
     sig_traffic = 1;
     for (long j = 0; j < n; j++) raise(SIGUSR2);
+    RET(0);
+  }
+  if (!strcmp(o, "connect") && (nw == 2 || nw == 3) && nr < MAXR && live(i) && H[i].kind == K_TCP && !uv_is_closing(H[i].ptr)
+      && !H[i].bound && !H[i].conn_pending) {
+    /* a real connect: to the harness's listener (which never accepts), or `refused`: to a port nobody listens on */
+    int refused = nw == 3 && !strcmp(w[2], "refused");
+    uv_connect_t* req = malloc(sizeof *req);
+    int r = uv_tcp_connect(req, (uv_tcp_t*) H[i].ptr, (struct sockaddr*) (refused ? &dead_addr : &lsn_addr), connect_cb);
+    if (r != 0) { free(req); RET(r); }
+    R[nr].kind = 2; R[nr].state = H_LIVE; R[nr].ptr = req; R[nr].handle = i; nr++;
+    H[i].conn_pending = 1; H[i].bound = 2; keep_dup(i);
     RET(0);
   }
   if (!strcmp(o, "cancel") && nw == 2) {
@@ -718,6 +751,12 @@ int main(int argc, char** argv) {
   memset(&sink_addr, 0, sizeof sink_addr); sink_addr.sin_family = AF_INET; sink_addr.sin_addr.s_addr = htonl(INADDR_LOOPBACK);
   bind(sink_fd, (struct sockaddr*) &sink_addr, sizeof sink_addr);
   { socklen_t sl = sizeof sink_addr; getsockname(sink_fd, (struct sockaddr*) &sink_addr, &sl); }
+  lsn_fd = socket(AF_INET, SOCK_STREAM | SOCK_CLOEXEC, 0);
+  memset(&lsn_addr, 0, sizeof lsn_addr); lsn_addr.sin_family = AF_INET; lsn_addr.sin_addr.s_addr = htonl(INADDR_LOOPBACK);
+  bind(lsn_fd, (struct sockaddr*) &lsn_addr, sizeof lsn_addr); listen(lsn_fd, 128);
+  { socklen_t sl = sizeof lsn_addr; getsockname(lsn_fd, (struct sockaddr*) &lsn_addr, &sl); }
+  { int t = socket(AF_INET, SOCK_STREAM | SOCK_CLOEXEC, 0); dead_addr = lsn_addr; dead_addr.sin_port = 0;
+    bind(t, (struct sockaddr*) &dead_addr, sizeof dead_addr); socklen_t sl = sizeof dead_addr; getsockname(t, (struct sockaddr*) &dead_addr, &sl); close(t); }
   int inited = 0;
   while (fgets(line, sizeof line, stdin)) {
     size_t l = strlen(line); while (l && (line[l - 1] == '\n' || line[l - 1] == ' ')) line[--l] = 0;
@@ -729,6 +768,7 @@ int main(int argc, char** argv) {
       else if (sscanf(line, "config cblimit %ld", &v) == 1) cblimit = v;
       else if (sscanf(line, "config polllimit %ld", &v) == 1) polllimit = v;
       else if (sscanf(line, "config eagain %ld", &v) == 1) eagain_budget = v;
+      else if (sscanf(line, "config soerror %ld", &v) == 1) soerror_budget = v;
       else if (sscanf(line, "config default_loop %ld", &v) == 1) use_default = (int) v;
       else if (sscanf(line, "config sigpipe %ld", &v) == 1) sigpipe_sz = v;
       else if (!strncmp(line, "config full", 11)) {
@@ -766,7 +806,7 @@ int main(int argc, char** argv) {
   join_helpers();     /* a parked sender finishes its uv_async_send before the process ends (ASan sees a late touch) */
   for (int i = 0; i < ns; i++) free(S[i].ops);
   for (int i = 0; i < nr; i++) if ((R[i].kind == 3 || R[i].kind == 4) && R[i].ptr) { free(R[i].ptr); R[i].ptr = NULL; }
-  close(sink_fd);
+  close(sink_fd); close(lsn_fd);
   if (!loop_closed) { gate_forever = 1; pthread_cond_broadcast(&gc); _exit(0); }   /* handles are still allocated by design */
   return 0;
 }
